@@ -105,7 +105,7 @@ if [ $two_stage = 0 ]; then
   run_stage 0
   exit $?
 fi
-VERIF_STAGE=plain run_stage 0
+VERIF_STAGE=plain VERIF_MORE_STAGES=1 run_stage 0
 rc=$?
 if [ $rc -ne 0 ]; then exit $rc; fi
 echo "--- stage 2: yield-instrumented build"
